@@ -123,6 +123,35 @@ pub fn check(case: &C04Case) -> CaseOutcome
     materialise(&sb.proj(), &tree);
     std::fs::write(sb.outside().join("other.rs"), b"fn o() { info!(\"outside\"); }\n").unwrap();
     std::fs::write(sb.tmp().join("old-breadlog-left.tmp"), b"x").unwrap();
+    // left-overs of earlier (killed) runs, some of them old: --check must not clean anything up either
+    for (i, (name, age_s)) in [
+        ("breadlog-0b5c1d0e-aaaa-4bbb-8ccc-111111111111.tmp", 7200i64),
+        ("breadlog-lock-0b5c1d0e-aaaa-4bbb-8ccc-222222222222.tmp", 3 * 86400),
+        ("breadlog-0b5c1d0e-aaaa-4bbb-8ccc-333333333333.tmp", 5),
+    ]
+    .iter()
+    .enumerate()
+    {
+        for dir in [sb.tmp(), sb.proj()]
+        {
+            if dir == sb.proj() && i != 0
+            {
+                continue;
+            }
+            let pth = dir.join(name);
+            std::fs::write(&pth, b"stale scratch content\n").unwrap();
+            let now = std::time::SystemTime::now().duration_since(std::time::UNIX_EPOCH).map(|d| d.as_secs() as i64).unwrap_or(0);
+            let t = libc::timespec {
+                tv_sec: now - age_s,
+                tv_nsec: 0,
+            };
+            let times = [t, t];
+            let c = std::ffi::CString::new(pth.to_string_lossy().as_bytes()).unwrap();
+            unsafe {
+                libc::utimensat(libc::AT_FDCWD, c.as_ptr(), times.as_ptr(), 0);
+            }
+        }
+    }
     if case.pre_edited
     {
         let _ = simple_run(&sb, false);
@@ -292,7 +321,7 @@ pub fn run(env: &Env, rec: &Recorder) -> (String, Vec<&'static str>)
 {
     pbt(env, rec, "check-mode", env.cases(2500, 40_000), &strategy, &check);
     (
-        "modelled trees (1-4 files, decoys, directives) x configuration (macros, structured on/off/omitted, use_cache on/off/omitted, extensions) x lock (absent, valid, corrupt, empty, negative) x breakage (none, no files in scope, missing source dir, source dir is a file, invalid YAML, missing config) x extra entries (non-source files, symlinks to file and directory, empty dir, stale file in TMPDIR, file outside the project) x fault plan (none, SIGTERM/SIGINT at a generated operation, injected read-side I/O failure); 20 % of trees pre-edited so nothing is missing. Oracle: (1) snapshot of the whole sandbox (project, TMPDIR, cwd, outside) identical incl. mtime and inode; (2) the libc-level trace contains no mutating call on any path; (3) for a 4 % sample the same run under strace -f shows no mutating file system call either (validates the interposer's view). Non-trivial = distinct case with a missing reference, a non-default configuration point, a broken configuration or a fault plan".to_string(),
+        "modelled trees (1-4 files, decoys, directives) x configuration (macros, structured on/off/omitted, use_cache on/off/omitted, extensions) x lock (absent, valid, corrupt, empty, negative) x breakage (none, no files in scope, missing source dir, source dir is a file, invalid YAML, missing config) x extra entries (non-source files, symlinks to file and directory, empty dir, stale scratch files of different ages in TMPDIR and in the project, file outside the project) x fault plan (none, SIGTERM/SIGINT at a generated operation, injected read-side I/O failure); 20 % of trees pre-edited so nothing is missing. Oracle: (1) snapshot of the whole sandbox (project, TMPDIR, cwd, outside) identical incl. mtime and inode; (2) the libc-level trace contains no mutating call on any path; (3) for a 4 % sample the same run under strace -f shows no mutating file system call either (validates the interposer's view). Non-trivial = distinct case with a missing reference, a non-default configuration point, a broken configuration or a fault plan".to_string(),
         vec!["the interposer sees libc-level calls of the dynamically linked build; a raw syscall() would bypass it (std and async-std use the libc wrappers)"],
     )
 }
